@@ -107,6 +107,10 @@ type LocalPFGrantData struct {
 type RemotePFGrantData struct {
 }
 
+// errGrantDataUnimplemented is returned when (de)serializing an intent whose
+// grant type has no associated-data encoding yet (local/remote port forwarding).
+var errGrantDataUnimplemented = errors.New("grant data for this grant type is not implemented")
+
 // NewAuthGrantMessage makes an agMessage with type and data
 func NewAuthGrantMessage(t msgType, data MessageData) AgMessage {
 	return AgMessage{t, data}
@@ -350,24 +354,24 @@ func (d *ShellGrantData) ReadFrom(r io.Reader) (int64, error) {
 
 // WriteTo writes serialized local pf grant data
 func (d *LocalPFGrantData) WriteTo(w io.Writer) (int64, error) {
-	panic("LocalPFGrantData WriteTo: unimplemented")
+	return 0, errGrantDataUnimplemented
 }
 
 // ReadFrom reads a serialized commandgrantdata block
 func (d *LocalPFGrantData) ReadFrom(r io.Reader) (int64, error) {
 	// read command
-	panic("LocalPFGrantData ReadFrom: unimplemented")
+	return 0, errGrantDataUnimplemented
 }
 
 // WriteTo writes serialized remote pf grant data
 func (d *RemotePFGrantData) WriteTo(w io.Writer) (int64, error) {
-	panic("RemotePFGrantData WriteTo: unimplemented")
+	return 0, errGrantDataUnimplemented
 }
 
 // ReadFrom reads a serialized commandgrantdata block
 func (d *RemotePFGrantData) ReadFrom(r io.Reader) (int64, error) {
 	// read command
-	panic("RemotePFGrantData ReadFrom: unimplemented")
+	return 0, errGrantDataUnimplemented
 }
 
 // ReadIntentRequest reads intent request and returns intent
